@@ -11,7 +11,7 @@ Model-based test over histories. A case is
                 ["chainlist", cls, [[year, month], ...], k]      FutureChain(contracts=[...], month=k) (given unsorted)
     op          ["q", ci, kk, bid, ask, bid_size|null, ask_size|null, dt]   EventNBBO -> process_EventNBBO
                 ["d", ci, mi, kk, dt]                                       EventContractDiscontinued
-                ["c", seconds]                                              AbstractContract.now = BASE + seconds
+                ["c", seconds, microseconds]                                AbstractContract.now = BASE + seconds (+ us)
                 ["k", ci, kind, q]                                          query through one key kind
 
 Every argument is relative (`ci` is taken modulo the number of contracts, `mi` modulo the number of
@@ -44,12 +44,13 @@ ASSET_CLASSES = ["ETF", "Stock", "Index"]
 KINDS = ["obj", "clone", "str", "chain"]
 HIST_FIELDS = ("time", "bid_price", "ask_price", "mid_price", "bid_size", "ask_size")
 
-RULE = ("Hypothesis draws 2-5 distinct contracts (ETF/Stock/Index assets, ES/ZN/NK/VX futures instances, 0-2 "
+RULE = ("Hypothesis draws 2-5 distinct contracts (ETF/Stock/Index assets, ES/ZN/NK/VX futures instances and two user-defined Future subclasses CL/HO "
+        "whose last trading date carries a time of day, 0-2 "
         "FutureChain objects built from start/end or from an explicit unsorted contract list, with month offset 0, 1 "
         "or 2; a plain future may alias a chain member), an observation mode (compare after every op / only books "
         "already addressed / only after the last op: reading Exchange creates books, so reads are part of the history) and a list of up to 40 ops quote/discontinue/set_clock/query (st.lists of tuples, one JSON "
-        "value). Clock values are drawn around the last trading dates of the futures in the case (-1 day, -1 s, exact, "
-        "+1 s, +1 day) and uniformly, always where the (month-shifted) preferred contract of every chain exists. "
+        "value). Clock values are drawn around the last trading dates of the futures in the case (-1 day, -1 h, -1 s, -1 us, exact, "
+        "+1 us, +1 s, +1 day; for intraday cut-offs also around 00:00 of that day and of the next) and uniformly, always where the (month-shifted) preferred contract of every chain exists. "
         "Non-trivial = at least 2 distinct symbols received an accepted quote AND at least one discontinuation was "
         "followed by a later quote addressed to the dead book AND at least one query went through a non-identity key "
         "(new object with the same symbol / symbol string / chain; with observe=end, where query ops are skipped, the "
@@ -68,6 +69,9 @@ ASSUMPTIONS = [
     "EventNBBO.contract is always a contract object (the constructor calls contract.verify); symbol strings are only "
     "used as Exchange keys. Discontinuation events address assets, futures or a named chain member, never a chain key",
     "a discontinuation is effective whether or not the exchange has ever been asked for that contract's book",
+    "user-defined Future subclasses (CL, HO, defined in this module: fixed expiry day, last trade 2-3 days earlier at "
+    "16:00 / 13:30:00.5) are legitimate inputs: contracts.py invites 'your own implementation'; a chain of them rolls "
+    "at that instant, not at 00:00 of that day",
 ]
 
 
@@ -159,15 +163,46 @@ def make_asset(cls, symbol, other=False):
     return getattr(C, cls)(symbol)
 
 
+class CL(C.Future):
+    """User-defined future (the library documents "provide your own implementation") that stops trading
+    INTRADAY: monthly, expires on the 25th at 00:00, last trade three days earlier at 16:00."""
+    exists_since = datetime(2000, 1, 1)
+    freq = "ME"
+    multiplier = 1000.0
+    margin_requirement = 0.1
+
+    def _get_expiry_date(self, year, month):
+        return datetime(year, month, 25)
+
+    def _get_last_trading_date(self, expiry):
+        return expiry - timedelta(days=3) + timedelta(hours=16)
+
+
+class HO(CL):
+    """Quarterly user-defined future, last trade two days before the 25th at 13:30:00.5."""
+    freq = "QE-DEC"
+    multiplier = 420.0
+
+    def _get_last_trading_date(self, expiry):
+        return expiry - timedelta(days=2) + timedelta(hours=13, minutes=30, microseconds=500000)
+
+
+USER_FUTURES = {"CL": CL, "HO": HO}
+
+
+def future_class(name):
+    return USER_FUTURES.get(name) or getattr(C, name)
+
+
 def make_future(cls, year, month):
-    return getattr(C, cls)(year, month)
+    return future_class(cls)(year, month)
 
 
 def make_chain(desc, reverse=False):
     k = chain_month(desc)
     kw = {"month": k} if k else {}       # month=0 is also exercised through the default
     if desc[0] == "chain":
-        return C.FutureChain(getattr(C, desc[1]), desc[2], desc[3], **kw)
+        return C.FutureChain(future_class(desc[1]), desc[2], desc[3], **kw)
     items = list(desc[2])
     if reverse:
         items = items[::-1]
@@ -451,6 +486,13 @@ def _run(case, res):
                 for m in mc.members:
                     if m.ltd == ctx.clock:
                         res.tag("chain-quote-at-last-trading-instant")
+                    day = datetime(m.ltd.year, m.ltd.month, m.ltd.day)
+                    if m.ltd != day:
+                        res.tag("quote-via-chain-intraday-cutoff")
+                        if day <= ctx.clock < m.ltd:
+                            res.tag("chain-quote-on-last-trading-day-before-cutoff")
+                        elif m.ltd <= ctx.clock < day + timedelta(days=1):
+                            res.tag("chain-quote-on-last-trading-day-after-cutoff")
                 prev = chain_leads.get(ci)
                 if prev is not None and prev != sym:
                     res.tag("chain-roll")
@@ -518,7 +560,7 @@ def _run(case, res):
             mb.alive = False
             mb.bid = mb.ask = mb.bsz = mb.asz = NAN
         elif code == "c":
-            t = BASE + timedelta(seconds=op[1])
+            t = BASE + timedelta(seconds=op[1], microseconds=op[2] if len(op) > 2 else 0)
             if clock_limit is not None and not t < clock_limit:
                 res.tag("clock-op-skipped")     # no lead would exist; the generator never draws this
             else:
@@ -580,13 +622,16 @@ POOL_ASSETS = [["asset", "ETF", "SPY"], ["asset", "ETF", "IEF"], ["asset", "Stoc
                ["asset", "Index", "S&P 500"], ["asset", "Stock", "BRK.b"], ["asset", "ETF", "spy"]]
 POOL_FUTURES = [["future", "ES", 2019, 6], ["future", "ES", 2019, 9], ["future", "ES", 2019, 12],
                 ["future", "ZN", 2019, 6], ["future", "ZN", 2019, 9], ["future", "NK", 2019, 9],
-                ["future", "VX", 2019, 7], ["future", "VX", 2019, 8]]
+                ["future", "VX", 2019, 7], ["future", "VX", 2019, 8],
+                ["future", "CL", 2019, 6], ["future", "CL", 2019, 7], ["future", "HO", 2019, 6]]
 # month (0, 1 or 2, below the number of members) is appended by the generator
 POOL_CHAINS = [["chain", "ES", "2019-03", "2020-06"], ["chain", "ES", "2019-06", "2019-12"],
                ["chain", "ZN", "2019-03", "2020-03"], ["chain", "VX", "2019-05", "2019-12"],
                ["chainlist", "ES", [[2019, 9], [2019, 6], [2020, 3]]],
                ["chainlist", "NK", [[2019, 12], [2019, 6], [2019, 9]]],
-               ["chainlist", "ZN", [[2019, 6], [2019, 9]]]]
+               ["chainlist", "ZN", [[2019, 6], [2019, 9]]],
+               ["chain", "CL", "2019-04", "2019-10"], ["chainlist", "CL", [[2019, 8], [2019, 6], [2019, 7]]],
+               ["chain", "HO", "2019-03", "2020-03"], ["chainlist", "HO", [[2019, 9], [2019, 6]]]]
 
 _TIMES_CACHE = {}
 
@@ -602,8 +647,37 @@ def _boundaries(desc):
             ltds = sorted(m.ltd for m in mc.members)
         else:
             ltds = []
-        _TIMES_CACHE[key] = [int((x - BASE).total_seconds()) for x in ltds]
+        _TIMES_CACHE[key] = [_stamp(x) for x in ltds]
     return _TIMES_CACHE[key]
+
+
+def _stamp(x):
+    """datetime -> (whole seconds after BASE, microseconds)."""
+    d = x - BASE
+    return (d.days * 86400 + d.seconds, d.microseconds)
+
+
+def _norm(sec, us):
+    if us < 0:
+        return (sec - 1, us + 1000000)
+    if us >= 1000000:
+        return (sec + 1, us - 1000000)
+    return (sec, us)
+
+
+def _clock_candidates(marks, limit):
+    """Clock values around every last trading date: a day / an hour / a second / a microsecond before, exactly,
+    a microsecond / a second / a day after; for intraday cut-offs also around 00:00 of that day and of the next."""
+    out = set()
+    for sec, us in marks:
+        for dsec, dus in ((-86400, 0), (-3600, 0), (-1, 0), (0, -1), (0, 0), (0, 1), (1, 0), (86400, 0)):
+            out.add(_norm(sec + dsec, us + dus))
+        if sec % 86400 or us:
+            day = sec - sec % 86400
+            for base in (day, day + 86400):
+                for dsec, dus in ((-1, 0), (0, 0), (0, 1), (6 * 3600, 0)):
+                    out.add(_norm(base + dsec, dus))
+    return sorted(c for c in out if (0, 0) <= c < limit)
 
 
 def _mk_quote(t):
@@ -636,9 +710,9 @@ def histories(draw, tier="quick"):
             limit = last if limit is None else min(limit, last)
         marks.extend(b)
     if limit is None:
-        limit = 600 * 86400
-    cands = sorted({m + o for m in marks for o in (-86400, -1, 0, 1, 86400) if 0 <= m + o < limit})
-    clock = st.integers(0, limit - 1)
+        limit = (600 * 86400, 0)
+    cands = _clock_candidates(marks, limit)
+    clock = st.tuples(st.integers(0, limit[0] - 1), st.just(0))
     if cands:
         clock = st.one_of(st.sampled_from(cands), st.sampled_from(cands), clock)
 
@@ -652,7 +726,7 @@ def histories(draw, tier="quick"):
     quote = st.tuples(st.just("q"), ci, st.sampled_from([0, 0, 1]), price, spread, size, size,
                       st.sampled_from([0, 1, 60, 86400])).map(_mk_quote)
     disc = st.tuples(st.just("d"), ci, st.integers(0, 7), st.sampled_from([0, 0, 1]), st.sampled_from([0, 1, 60, 86400])).map(list)
-    setclock = st.tuples(st.just("c"), clock).map(list)
+    setclock = clock.map(lambda c: ["c", c[0], c[1]])
     qty = st.sampled_from([1, -1, 0, 0.5, -0.25, 1e-12, -1e-12, 1000, -7, 0.0, -0.0])
     query = st.tuples(st.just("k"), ci, st.integers(0, 3), qty).map(list)
     # st.one_of drops repeated strategy objects, so weights are given with distinct wrappers
